@@ -2562,6 +2562,10 @@ impl<'a> Gen<'a> {
             self.leaf();
             return;
         }
+        if self.rng.chance(1, 7) {
+            self.degenerate_op();
+            return;
+        }
         let a = self.arg_name().unwrap();
         let b = self.arg_name().unwrap();
         let c = self.arg_name().unwrap();
@@ -2686,7 +2690,9 @@ impl<'a> Gen<'a> {
                 self.unref(&cu);
             }
             69..=78 => {
-                let q = match self.rng.below(10) {
+                let q = match self.rng.below(12) {
+                    10 => format!("v2l {}", self.rng.below(self.n as u64)),
+                    11 => format!("l2v {}", self.rng.below(self.n as u64)),
                     0 => format!("count {a}"),
                     1 => format!("sat {a}"),
                     2 => format!("valid {a}"),
@@ -2747,9 +2753,8 @@ impl<'a> Gen<'a> {
                 // (partial) reordering with live nodes
                 let mut vs: Vec<u32> = (0..self.n).collect();
                 self.rng.shuffle(&mut vs);
-                let k = self.rng.range(2, self.n as u64) as usize;
-                let l: Vec<String> = vs[..k].iter().map(|v| v.to_string()).collect();
-                self.emit(&format!("order {}", l.join(" ")));
+                let k = if self.rng.chance(1, 2) { self.n as usize } else { self.rng.range(2, self.n as u64) as usize };
+                self.order_block(&vs[..k].to_vec());
                 // level dependent predictions are still fine: truth tables do not change
             }
             98 => {
@@ -2789,6 +2794,329 @@ impl<'a> Gen<'a> {
             }
         }
     }
+    /// `set_var_order(order)` followed by the complete variable ↔ level maps (a permutation that is
+    /// not its own inverse distinguishes `var_to_level` from `level_to_var`), the node queries on
+    /// every variable's function and the names
+    fn order_block(&mut self, order: &[u32]) {
+        let l: Vec<String> = order.iter().map(|v| v.to_string()).collect();
+        if self.kind == "zbdd" {
+            // ZBDD managers are only reordered without nodes (KF-zbdd-reorder)
+            self.emit("gc");
+        }
+        self.emit(&format!("order {}", l.join(" ")));
+        for v in 0..self.n {
+            self.emit(&format!("v2l {v}"));
+            self.emit(&format!("l2v {v}"));
+        }
+        if !self.tiny {
+            for v in 0..self.n {
+                if self.rng.chance(1, 2) {
+                    let x = self.fresh();
+                    self.emit(&format!("var {x} {v}"));
+                    self.emit(&format!("level {x}"));
+                    self.emit(&format!("nvar {x}"));
+                    self.emit(&format!("unref {x}"));
+                }
+            }
+        }
+        let v = self.rng.below(self.n as u64);
+        self.emit(&format!("varname {v}"));
+        let nm = *self.rng.pick(&NAMES);
+        self.emit(&format!("name2var {nm}"));
+    }
+
+    /// a random permutation of all variables, often a rotation (never an involution for n ≥ 3)
+    fn permutation(&mut self) -> Vec<u32> {
+        let n = self.n;
+        if self.rng.chance(1, 3) {
+            let k = self.rng.range(1, n as u64 - 1) as u32;
+            (0..n).map(|i| (i + k) % n).collect()
+        } else {
+            let mut vs: Vec<u32> = (0..n).collect();
+            self.rng.shuffle(&mut vs);
+            vs
+        }
+    }
+
+    fn constant(&mut self, val: bool) -> String {
+        let h = self.fresh();
+        self.emit(&format!("const {h} {}", if val { "T" } else { "F" }));
+        let t = if val { self.full() } else { 0 };
+        self.def(&h, Some(t));
+        h
+    }
+
+    /// Degenerate arguments: the result is (a function equal to) one of the arguments or a
+    /// constant, i.e. the shapes for which an implementation is tempted to hand back a reference it
+    /// does not own. Every returned handle must be an owned reference of its own: the result is
+    /// usually released and a collection run right away, after which the arguments must be
+    /// untouched (`gc` walks all live handles and compares the number of stored nodes).
+    fn degenerate_op(&mut self) {
+        let zbdd = self.kind == "zbdd";
+        let a = self.arg_name().unwrap();
+        let b = self.arg_name().unwrap();
+        let ta = self.tt_of(&a);
+        let h = self.fresh();
+        let full = self.full();
+        let mut extra: Vec<String> = Vec::new();
+        let mut tt: Option<u64> = None;
+        let shape = self.rng.below(if zbdd { 22 } else { 24 });
+        match shape {
+            0 => {
+                let t = self.constant(true);
+                self.emit(&format!("op {h} and {a} {t}"));
+                tt = ta;
+                extra.push(t);
+            }
+            1 => {
+                let f = self.constant(false);
+                self.emit(&format!("op {h} or {f} {a}"));
+                tt = ta;
+                extra.push(f);
+            }
+            2 => {
+                let op = *self.rng.pick(&["and", "or"]);
+                self.emit(&format!("op {h} {op} {a} {a}"));
+                tt = ta;
+            }
+            3 => {
+                let op = *self.rng.pick(&["xor", "equiv", "imp", "imp_strict", "nand", "nor"]);
+                self.emit(&format!("op {h} {op} {a} {a}"));
+                tt = ta.map(|x| bin_tt(op, x, x));
+            }
+            4 => {
+                let f = self.constant(false);
+                self.emit(&format!("op {h} xor {a} {f}"));
+                tt = ta;
+                extra.push(f);
+            }
+            5 => {
+                let t = self.constant(true);
+                let op = *self.rng.pick(&["equiv", "imp"]);
+                // a ↔ ⊤ = a, ⊤ → a = a
+                self.emit(&format!("op {h} {op} {t} {a}"));
+                tt = ta;
+                extra.push(t);
+            }
+            6 => {
+                self.emit(&format!("op {h} ite {a} {b} {b}"));
+                tt = self.tt_of(&b);
+            }
+            7 => {
+                let val = self.rng.chance(1, 2);
+                let t = self.constant(val);
+                self.emit(&format!("op {h} ite {t} {a} {b}"));
+                extra.push(t);
+            }
+            8 => {
+                let t = self.constant(true);
+                let f = self.constant(false);
+                self.emit(&format!("op {h} ite {a} {t} {f}"));
+                tt = ta;
+                extra.push(t);
+                extra.push(f);
+            }
+            9 => {
+                self.emit(&format!("op {h} ite {a} {a} {a}"));
+                tt = ta;
+            }
+            10 => {
+                let val = self.rng.chance(1, 2);
+                let t = self.constant(val);
+                self.emit(&format!("op {h} not {t}"));
+                extra.push(t);
+            }
+            11 => {
+                let val = self.rng.chance(1, 2);
+                let t = self.constant(val);
+                self.emit(&format!("pick {h} {t}"));
+                self.emit(&format!("pickvec {t}"));
+                extra.push(t);
+            }
+            12 => {
+                // a cube picked from a cube is the cube itself
+                let cu = self.cube(false, 3);
+                self.emit(&format!("pick {h} {cu}"));
+                extra.push(cu);
+            }
+            13 => {
+                let t = self.constant(true);
+                self.emit(&format!("pickset {h} {a} {t}"));
+                extra.push(t);
+            }
+            14 => {
+                let x = self.leaf();
+                if self.rng.chance(1, 2) {
+                    self.emit(&format!("coft {h} {x}"));
+                } else {
+                    self.emit(&format!("cofe {h} {x}"));
+                }
+                extra.push(x);
+            }
+            15 => {
+                // two names for one node
+                let v = self.rng.below(self.n as u64);
+                let x = self.fresh();
+                self.emit(&format!("var {x} {v}"));
+                self.def(&x, None);
+                self.emit(&format!("var {h} {v}"));
+                extra.push(x);
+            }
+            16 if !zbdd => {
+                // empty variable set
+                let t = self.constant(true);
+                let q = *self.rng.pick(&QUANTS);
+                self.emit(&format!("quant {h} {q} {a} {t}"));
+                extra.push(t);
+            }
+            17 if !zbdd => {
+                let t = self.constant(true);
+                let q = *self.rng.pick(&QUANTS);
+                let op = *self.rng.pick(&["and", "or"]);
+                self.emit(&format!("applyq {h} {q} {op} {a} {a} {t}"));
+                tt = ta;
+                extra.push(t);
+            }
+            18 if !zbdd => {
+                // empty cube
+                let t = self.constant(true);
+                self.emit(&format!("restrict {h} {a} {t}"));
+                tt = ta;
+                extra.push(t);
+            }
+            19 if !zbdd => {
+                // a substitution without pairs
+                let sid = format!("s{}", self.next);
+                self.emit(&format!("mksubst {sid}"));
+                self.emit(&format!("subst {h} {a} {sid}"));
+                tt = ta;
+                if self.rng.chance(2, 3) {
+                    self.emit(&format!("dropsubst {sid}"));
+                } else {
+                    self.substs.push(sid);
+                }
+            }
+            20 if !zbdd => {
+                // a variable replaced by itself
+                let sid = format!("s{}", self.next);
+                let v = self.rng.below(self.n as u64);
+                let x = self.fresh();
+                self.emit(&format!("var {x} {v}"));
+                self.def(&x, None);
+                self.emit(&format!("mksubst {sid} {v}={x}"));
+                self.emit(&format!("subst {h} {a} {sid}"));
+                tt = ta;
+                self.emit(&format!("dropsubst {sid}"));
+                extra.push(x);
+            }
+            21 if !zbdd => {
+                // pairs for variables the function does not depend on
+                let free: Vec<u32> = match ta {
+                    // independent of v: the two cofactors coincide
+                    Some(t) => (0..self.n.min(6)).filter(|&v| {
+                        let m = self.var_tt(v);
+                        ((t & m) >> (1u32 << v)) == (t & !m & full)
+                    }).collect(),
+                    None => Vec::new(),
+                };
+                let sid = format!("s{}", self.next);
+                if let Some(&v) = free.first() {
+                    self.emit(&format!("mksubst {sid} {v}={b}"));
+                } else {
+                    self.emit(&format!("mksubst {sid}"));
+                }
+                self.emit(&format!("subst {h} {a} {sid}"));
+                self.emit(&format!("dropsubst {sid}"));
+            }
+            22 if !zbdd => {
+                let val = self.rng.chance(1, 2);
+                let t = self.constant(val);
+                let cu = self.cube(true, 2);
+                let q = *self.rng.pick(&QUANTS);
+                // quantification of a constant
+                self.emit(&format!("quant {h} {q} {t} {cu}"));
+                extra.push(t);
+                extra.push(cu);
+            }
+            23 if !zbdd => {
+                let x = self.fresh();
+                self.emit(&format!("op {x} not {a}"));
+                self.def(&x, ta.map(|t| !t));
+                // ¬¬a
+                self.emit(&format!("op {h} not {x}"));
+                tt = ta;
+                extra.push(x);
+            }
+            16 | 17 if zbdd => {
+                let e = self.fresh();
+                self.emit(&format!("zconst {e} empty"));
+                self.def(&e, None);
+                let op = *self.rng.pick(&["union", "diff"]);
+                // a ∪ ∅ = a ∖ ∅ = a
+                self.emit(&format!("{op} {h} {a} {e}"));
+                extra.push(e);
+            }
+            18 if zbdd => {
+                let op = *self.rng.pick(&["union", "intsec", "diff"]);
+                self.emit(&format!("{op} {h} {a} {a}"));
+            }
+            19 if zbdd => {
+                let v = self.rng.below(self.n as u64);
+                let x = self.fresh();
+                // change twice is the identity
+                self.emit(&format!("change {x} {a} {v}"));
+                self.def(&x, None);
+                self.emit(&format!("change {h} {x} {v}"));
+                extra.push(x);
+            }
+            20 if zbdd => {
+                // subset0 w.r.t. a variable that does not occur in the set
+                let x = self.fresh();
+                let v = self.rng.below(self.n as u64);
+                let w = (v + 1) % self.n as u64;
+                self.emit(&format!("singleton {x} {v}"));
+                self.def(&x, None);
+                self.emit(&format!("subset0 {h} {x} {w}"));
+                extra.push(x);
+            }
+            _ => {
+                // make_node with an empty `hi` is `lo`
+                if self.n >= 2 {
+                    let lv = self.rng.below(self.n as u64 - 1) as usize;
+                    let (v, w) = (self.l2v[lv], self.l2v[lv + 1]);
+                    let (sv, hi, lo) = (self.fresh(), self.fresh(), self.fresh());
+                    self.emit(&format!("singleton {sv} {v}"));
+                    self.emit(&format!("zconst {hi} empty"));
+                    self.emit(&format!("singleton {lo} {w}"));
+                    self.def(&sv, None);
+                    self.def(&lo, None);
+                    self.emit(&format!("ref {lo}"));
+                    self.emit(&format!("mknode {h} {sv} {hi} {lo}"));
+                    extra.push(sv);
+                    extra.push(lo);
+                } else {
+                    self.emit(&format!("op {h} and {a} {a}"));
+                    tt = ta;
+                }
+            }
+        }
+        self.def(&h, tt);
+        // helper handles are released again
+        for x in extra {
+            if self.rng.chance(3, 4) {
+                self.unref(&x);
+            }
+        }
+        if self.rng.chance(2, 3) {
+            // the result is given back; the arguments must survive the collection
+            self.unref(&h);
+            self.emit("gc");
+            if Some(&a) != self.invalid.as_ref() && self.hs.iter().any(|x| x.name == a && x.cnt > 0) {
+                self.emit(&format!("tt {a}"));
+            }
+        }
+    }
+
     /// after `addnamed` the generator does not know the variable count: keep using the old one
     /// (a lower bound), which is always valid
     fn n_unknown(&mut self) {}
@@ -2857,13 +3185,15 @@ fn random_case(rng: &mut Rng, w: &mut dyn Write, name: &str, kind: &'static str,
         None => writeln!(w, "mgr {kind} vars={n}").unwrap(),
     }
     let mut g = Gen { rng, w, kind, n, hs: Vec::new(), next: 0, l2v: (0..n).collect(), substs: Vec::new(), invalid: None, mrefs: 1, tiny: cap.is_some() };
-    if cap.is_none() && g.rng.chance(1, 3) {
-        // a variable order established on the empty manager (all kinds)
-        let mut vs: Vec<u32> = (0..n).collect();
-        g.rng.shuffle(&mut vs);
-        let l: Vec<String> = vs.iter().map(|v| v.to_string()).collect();
-        g.emit(&format!("order {}", l.join(" ")));
-        g.l2v = vs;
+    if cap.is_none() && g.rng.chance(1, 2) {
+        // one or two variable orders established on the empty manager (all kinds; the second one
+        // starts from a non-identity order)
+        let k = if g.rng.chance(1, 3) { 2 } else { 1 };
+        for _ in 0..k {
+            let vs = g.permutation();
+            g.order_block(&vs);
+            g.l2v = vs;
+        }
     }
     if g.rng.chance(1, 4) {
         let k = g.rng.range(1, n as u64) as usize;
@@ -3001,6 +3331,185 @@ fn enumerated(w: &mut dyn Write, kind: &'static str) {
             p("gc");
             p("end");
         }
+    }
+
+    // degenerate arguments of every entry-point class: every result is released right away and a
+    // collection is run; the arguments must survive, the node balance must hold
+    p(&format!("case enum-degenerate-{kind}"));
+    p(&format!("mgr {kind} vars=3"));
+    for l in ["var a 0", "var b 1", "var c 2", "op g ite a b c", "const t T", "const f F", "gc"] {
+        p(l);
+    }
+    let mut k = 0;
+    let mut probe = |lines: &[&str], res: &str| {
+        for l in lines {
+            p(l);
+        }
+        k += 1;
+        p(&format!("tt {res}"));
+        p(&format!("unref {res}"));
+        p("gc");
+        p("tt g");
+        if k % 4 == 0 {
+            p("tt a");
+            p("tt t");
+        }
+    };
+    for (lines, res) in [
+        (vec!["op d1 and g t"], "d1"),
+        (vec!["op d2 and t g"], "d2"),
+        (vec!["op d3 or g f"], "d3"),
+        (vec!["op d4 and g g"], "d4"),
+        (vec!["op d5 or g g"], "d5"),
+        (vec!["op d6 xor g f"], "d6"),
+        (vec!["op d7 xor g g"], "d7"),
+        (vec!["op d8 equiv g t"], "d8"),
+        (vec!["op d9 equiv g g"], "d9"),
+        (vec!["op d10 imp t g"], "d10"),
+        (vec!["op d11 imp_strict f g"], "d11"),
+        (vec!["op d12 nand g g"], "d12"),
+        (vec!["op d13 nor g f"], "d13"),
+        (vec!["op d14 ite g b b"], "d14"),
+        (vec!["op d15 ite t g a"], "d15"),
+        (vec!["op d16 ite f a g"], "d16"),
+        (vec!["op d17 ite g t f"], "d17"),
+        (vec!["op d18 ite g g g"], "d18"),
+        (vec!["op d19 ite g g f"], "d19"),
+        (vec!["op d20 not t"], "d20"),
+        (vec!["op d21 not g", "op d22 not d21", "unref d21"], "d22"),
+        (vec!["pick d23 t", "pickvec t"], "d23"),
+        (vec!["pick d24 f", "pickvec f"], "d24"),
+        (vec!["pick d25 a"], "d25"),
+        (vec!["pickset d26 g t"], "d26"),
+        (vec!["pickset d27 a a"], "d27"),
+        (vec!["pickset d28 t a"], "d28"),
+        (vec!["coft d29 a"], "d29"),
+        (vec!["cofe d30 a"], "d30"),
+        (vec!["cof d31 d32 g", "unref d32"], "d31"),
+        (vec!["var d33 0"], "d33"),
+        (vec!["const d34 T"], "d34"),
+        (vec!["pool d35 g t"], "d35"),
+        (vec!["pool d36 g g"], "d36"),
+        (vec!["ref g", "unref g", "op d37 and g g"], "d37"),
+    ] {
+        probe(&lines, res);
+    }
+    if !z {
+        for (lines, res) in [
+            (vec!["quant e1 forall g t"], "e1"),
+            (vec!["quant e2 exists g t"], "e2"),
+            (vec!["quant e3 unique g t"], "e3"),
+            (vec!["quant e4 exists t a"], "e4"),
+            (vec!["quant e5 forall f a"], "e5"),
+            (vec!["quant e6 exists b a"], "e6"),
+            (vec!["applyq e7 exists and g g t"], "e7"),
+            (vec!["applyq e8 forall or g f t"], "e8"),
+            (vec!["applyq e9 unique and g t t"], "e9"),
+            (vec!["restrict e10 g t"], "e10"),
+            (vec!["restrict e11 b a"], "e11"),
+            (vec!["restrict e12 t a"], "e12"),
+            (vec!["mksubst z0", "subst e13 g z0"], "e13"),
+            (vec!["subst e14 t z0"], "e14"),
+            (vec!["subst e15 a z0", "dropsubst z0"], "e15"),
+            (vec!["mksubst z1 0=a", "subst e16 g z1", "dropsubst z1"], "e16"),
+            (vec!["mksubst z2 2=a", "subst e17 b z2"], "e17"),
+            (vec!["subst e18 t z2", "dropsubst z2"], "e18"),
+            (vec!["mksubst z3 0=a 1=b 2=c", "subst e19 g z3", "dropsubst z3"], "e19"),
+            (vec!["mksubst z4 0=g", "subst e20 a z4", "dropsubst z4"], "e20"),
+        ] {
+            probe(&lines, res);
+        }
+    } else {
+        for (lines, res) in [
+            (vec!["zconst em empty", "zconst ba base", "singleton sa 0", "singleton sb 1", "singleton sc 2", "union u g sa", "union e1 u em"], "e1"),
+            (vec!["union e2 em u"], "e2"),
+            (vec!["union e3 u u"], "e3"),
+            (vec!["intsec e4 u u"], "e4"),
+            (vec!["intsec e5 u em"], "e5"),
+            (vec!["diff e6 u em"], "e6"),
+            (vec!["diff e7 u u"], "e7"),
+            (vec!["subset0 e8 sa 1"], "e8"),
+            (vec!["subset1 e9 sa 1"], "e9"),
+            (vec!["subset1 e10 sa 0"], "e10"),
+            (vec!["change e11 u 2", "change e12 e11 2", "unref e11"], "e12"),
+            (vec!["change e13 em 0"], "e13"),
+            (vec!["change e14 ba 0"], "e14"),
+            (vec!["ref sc", "zconst h0 empty", "mknode e15 sb h0 sc"], "e15"),
+            (vec!["ref sc", "ref sc", "mknode e16 sb sc sc"], "e16"),
+            (vec!["singleton e17 0"], "e17"),
+            (vec!["zconst e18 base"], "e18"),
+            (vec!["tt u", "tt sa", "tt sc", "op e19 and u u"], "e19"),
+        ] {
+            probe(&lines, res);
+        }
+    }
+    p("gc");
+    p("end");
+
+    // variable orders that are not their own inverse: the complete variable <-> level maps, the
+    // node queries on every variable and the names after every reordering (ZBDD: no nodes while
+    // reordering, KF-zbdd-reorder)
+    for (n, orders) in [
+        (3u32, vec!["1 2 0", "1 2 0", "2 1", "0 2 1"]),
+        (4, vec!["1 2 0 3", "3 0 1 2", "2 0", "3 1 0", "1 3 2 0"]),
+        (5, vec!["1 2 3 4 0", "4 2 0", "2 3 1 0 4", "3 4 0 1 2"]),
+        (6, vec!["5 0 1 2 3 4", "2 0 1 5 3 4", "4 1", "1 3 5 0 2 4"]),
+    ] {
+        p(&format!("case enum-order-{kind}-{n}"));
+        p(&format!("mgr {kind} vars={n}"));
+        p("setname 0 x");
+        p(&format!("setname {} last", n - 1));
+        if !z {
+            // live nodes depending on all variables
+            for v in 0..n {
+                p(&format!("var w{v} {v}"));
+            }
+            p("op f0 ite w0 w1 w2");
+            for v in 3..n {
+                p(&format!("op f{} xor f{} w{v}", v - 2, v - 3));
+            }
+            p(&format!("tt f{}", n.max(3) - 3));
+        }
+        for (i, o) in orders.iter().enumerate() {
+            if z {
+                p("gc");
+            }
+            p(&format!("order {o}"));
+            for v in 0..n {
+                p(&format!("v2l {v}"));
+                p(&format!("l2v {v}"));
+            }
+            for v in 0..n {
+                if z {
+                    p(&format!("var x{i}_{v} {v}"));
+                    p(&format!("level x{i}_{v}"));
+                    p(&format!("nvar x{i}_{v}"));
+                    p(&format!("singleton y{i}_{v} {v}"));
+                    p(&format!("level y{i}_{v}"));
+                    p(&format!("nvar y{i}_{v}"));
+                    p(&format!("unref x{i}_{v}"));
+                    p(&format!("unref y{i}_{v}"));
+                } else {
+                    p(&format!("level w{v}"));
+                    p(&format!("nvar w{v}"));
+                    p(&format!("notvar x{i}_{v} {v}"));
+                    p(&format!("level x{i}_{v}"));
+                    p(&format!("nvar x{i}_{v}"));
+                    p(&format!("unref x{i}_{v}"));
+                }
+                p(&format!("varname {v}"));
+            }
+            p("name2var x");
+            p("name2var last");
+            if !z {
+                p(&format!("tt f{}", n.max(3) - 3));
+                p(&format!("level f{}", n.max(3) - 3));
+                p(&format!("nvar f{}", n.max(3) - 3));
+                p(&format!("show f{}", n.max(3) - 3));
+            }
+        }
+        p("gc");
+        p("end");
     }
 
     // `inner_node_capacity = 0`: a manager that can only hold the terminals (if the documentation
